@@ -52,3 +52,14 @@ reg('C13', True, 'other',
     'Real-number identities only (no rounding). Trusted: symbolic interpreter + model table for f64::powi and nalgebra '
     'Point/Vector/Transform ops; itertools cartesian_product and Iterator::sum cardinality.',
     'symbolic execution of MIR + polynomial normal-form identity + adaptor-chain recognition')
+
+reg('C14', True, 'other',
+    'Symbolic execution + exact normal forms of the loop-free Cell2 leaves: to_cartesian is linear with A=(a,0), '
+    'B=(b cos t, b sin t) (the property\'s own lattice, a=length, b=length*ratio); to_cartesian_point/center go through '
+    'the same map; to_cartesian_isometry/translate replace exactly the two translation entries by to_cartesian(p [+ (n,m) '
+    'in that order]) and leave the other seven matrix entries untouched; area = A x B of those same vectors. '
+    'periodic_images: cartesian product of two -shells..=shells ranges (bounds traced to the parameter), filter closure '
+    'evaluated on all 8 rows of (zero, x==0, y==0) against zero OR NOT(x=0 AND y=0), every index pair mapped once through '
+    'to_cartesian_translate with (x,y) in order; adaptor whitelist excludes anything that drops/duplicates.',
+    'Real-number identities (no rounding). Trusted: symbolic interpreter and nalgebra/itertools models.',
+    'symbolic execution of MIR + polynomial normal form + adaptor-chain recognition + finite truth table')
